@@ -599,17 +599,17 @@ func (a *agg) finish(t0 time.Time, scratch string, planned int) int {
 		vlist = append(vlist, map[string]interface{}{"signature": v.Sig, "count": v.Count, "known_finding": isKnown, "case": v.Case})
 	}
 	cov := map[string]interface{}{
-		"evaluations":         a.evals,
-		"distinct_nontrivial": len(a.shapes),
-		"rule":                a.sp.Rule,
-		"samples":             samples,
-		"counters":            a.stats,
-		"observed_sets":       setsOut,
-		"race_observations":   raceObs,
-		"violations_detail":   vlist,
-		"inconclusive":        a.inconc,
+		"evaluations":          a.evals,
+		"distinct_nontrivial":  len(a.shapes),
+		"rule":                 a.sp.Rule,
+		"samples":              samples,
+		"counters":             a.stats,
+		"observed_sets":        setsOut,
+		"race_observations":    raceObs,
+		"violations_detail":    vlist,
+		"inconclusive":         a.inconc,
 		"too_few_observations": tooFew,
-		"planned_cases":       planned,
+		"planned_cases":        planned,
 	}
 	if a.sp.Exhaust {
 		cov["exhaustive"] = len(a.inconc) == 0 && a.evals == planned
